@@ -40,10 +40,15 @@ def search(res, tier, seed, deep=False):
                         obs, hist = R.series(rs, n, "tas"), R.series(rs, n, "tas", bias, sc)
                     else:
                         obs, hist = R.series(rs, n, "pr"), R.series(rs, n, "pr", scale=1.0 + abs(bias) / 4)
-                    tO = R.times(n, "1981-01-01")
-                    inp = dict(debiaser=name, variable=var, window_mode=mode, bias=bias, scale=sc, n=n, seed=seed)
+                    tO = R.times(n, "1981-01-01"); tH = tO
+                    if name == "DeltaChange":
+                        # the model period need not be the observed one: another start date and length
+                        nH = r.choice([n, n + 200, 2 * n]); startH = r.choice(["1981-01-01", "1971-01-01", "1975-04-11"])
+                        hist = R.series(rs, nH, var, bias, sc) if var == "tas" else R.series(rs, nH, "pr", scale=1.0 + abs(bias) / 4)
+                        tH = R.times(nH, startH)
+                    inp = dict(debiaser=name, variable=var, window_mode=mode, bias=bias, scale=sc, n=n, n_hist=int(hist.size), start_hist=str(tH[0])[:10], seed=seed)
                     try:
-                        out = R.run(d, obs, hist, hist.copy(), tO, tO, tO)
+                        out = R.run(d, obs, hist, hist.copy(), tO, tH, tH)
                     except Exception as e:
                         report("exception:" + name, inp, repr(e)[:300], "apply_location raised"); continue
                     res.case(("c01", name, var, mode))
@@ -61,6 +66,29 @@ def search(res, tier, seed, deep=False):
                     if name in ("QuantileMapping", "ECDFM", "ISIMIP") and mode == "none" and var == "tas":
                         if abs(out.std() - obs.std()) > (1e-6 if name != "ISIMIP" else 0.05) * obs.std():
                             report("spread:" + name, inp, [float(out.std()), float(obs.std())], "the calibrated spread is not reproduced")
+        # ISIMIP with detrending active: a significant trend in one of the two calibration series must not
+        # leave a mean bias (the trend is removed around the series mean and restored)
+        if True:
+            rs = np.random.RandomState(r.randint(0, 10 ** 6))
+            ny = 10; n = 3652
+            trend_in = r.choice(["obs", "cm_hist"]); slope = r.choice([0.06, 0.1]) / 365.25
+            bias = r.choice([-2.0, 2.0])
+            obs, hist = R.series(rs, n, "tas", 0.0, 0.5), R.series(rs, n, "tas", bias, 0.5)
+            ramp = slope * np.arange(n)
+            if trend_in == "obs": obs = obs + ramp
+            else: hist = hist + ramp
+            tO = R.times(n, "1981-01-01")
+            for mode in (["none"] if tier == "quick" else ["none", "days"]):
+                d = R.build("ISIMIP", "tas", mode, r)
+                inp = dict(debiaser="ISIMIP", variable="tas", window_mode=mode, trend_in=trend_in, slope_per_year=slope * 365.25, bias=bias, n=n, seed=seed)
+                try:
+                    out = R.run(d, obs, hist, hist.copy(), tO, tO, tO)
+                except Exception as e:
+                    report("exception:ISIMIP-trend", inp, repr(e)[:300], "apply_location raised"); continue
+                res.case(("c01-trend", "ISIMIP", mode, trend_in))
+                orig = hist.mean() - obs.mean(); resid = out.mean() - obs.mean()
+                if not (abs(resid) <= 0.05 * abs(orig)):
+                    report("residual-bias:ISIMIP:trend", inp, dict(residual=float(resid), original=float(orig)), "ISIMIP with detrending leaves a residual mean bias on trending data")
         # non-parametric QM with equal sizes reproduces exactly the observed multiset
         import ibicus.debias as D
         rs = np.random.RandomState(r.randint(0, 10 ** 6))
